@@ -4,6 +4,7 @@ Model: Model/LinkFormat.lean (parser side).  All functions of the model are
 total; slicing never leaves the input (`IsSlice`); the iteration ends on its
 own, not by the fuel bound.
 -/
+import CoapLite.Lemmas.Shape.Api
 import CoapLite.Lemmas.LinkParse
 import CoapLite.Lemmas.Unquote
 import CoapLite.Lemmas.LinkLow
@@ -132,5 +133,12 @@ theorem state_shape_matches_source :
     Shapes.linkAttributeParser = [("inner", "&str")] ∧
     Shapes.unquote = [("inner", "Chars"), ("state", "UnquoteState")] :=
   ⟨ShapeTie.no_global_state, ShapeTie.linkFormatWrite, ShapeTie.linkAttributeWrite, ShapeTie.linkFormatParser, ShapeTie.linkAttributeParser, ShapeTie.unquote⟩
+
+/-- the public entry points of the modelled source files – re-read from /repo/src on every run – are
+exactly the ones the model was written against (`Lemmas/Shape/Api.lean`): a new public way to change the
+state this property is about, or a receiver that became `&mut self`, breaks this theorem -/
+theorem api_surface_matches_source :
+    Shapes.apiLinkFormat = ShapeTie.expectedApiLinkFormat :=
+  ShapeTie.apiLinkFormat
 
 end CoapLite.C17
